@@ -34,6 +34,11 @@ def gen_history(rng, d, m, T, kind, k, pad_start):
     elif kind == "scale":
       sc = 10.0 ** rng.rint(-3, 3)
       g = np.array([[rng.normal() * sc for _ in range(m)] for _ in range(d)])
+    elif kind in ("small", "large"):
+      # whole history at one extreme magnitude (property quantifier: scales 1e-6 .. 1e6)
+      if basis is None:
+        basis = 10.0 ** (rng.rint(-6, -4) if kind == "small" else rng.rint(4, 6))
+      g = np.array([[rng.normal() * basis for _ in range(m)] for _ in range(d)])
     else:
       g = np.array([[rng.normal() for _ in range(m)] for _ in range(d)])
     g = np.asarray(g, dtype=np.float32).astype(np.float64)
